@@ -229,7 +229,7 @@ fn run_case(nb: usize, nu: usize, ops: &[i64]) -> Vec<i64> {
                 }
             }
         },
-        Duration::from_secs(10),
+        Duration::from_secs(5),
     );
     let mut raw: Vec<u8> = Vec::new();
     unsafe {
